@@ -235,6 +235,60 @@ theorem c12_wsp_accepted (wsPath : List Char) (ins : List Input) :
   rw [h0] at h
   simp [accepts, h]
 
+/-- A refused request changes nothing that any later request can tell: in every reachable state, a
+    request (other than TEARDOWN) whose response is not 200 leaves the session exactly where the
+    reference automaton had it — same phase of the legal order, same consumer, same published stream,
+    connection open.  (Together with `c12_model_accepted` from that state: whatever follows a refusal is
+    judged as if the refused request had never been sent.) -/
+theorem c12_refused_inert (s : Sess) (r : Req) (e : Env) (hinv : SInv s) (hwf : r.setupPath ≠ [])
+    (hopen : s.closed = false) (hm : r.method ≠ .teardown)
+    (hx : ∀ x ∈ respsOf (step genCfg s r e).2, x.code ≠ 200) :
+    mstateOf (step genCfg s r e).1 = mstateOf s := by
+  obtain ⟨_, hs⟩ := step_sim genCfg c12_source_facts.2.1 s r e hinv hwf
+  obtain ⟨x, hx1, _⟩ := c12_one_response s r e hopen
+  have hcode := hx x (by rw [hx1]; simp)
+  rcases mstep_ok _ _ _ _ hs with h | h | ⟨_, h200, _⟩
+  · exact h
+  · exfalso
+    have hcl := mstep_open _ _ _ _ hs (absPhase_open s hopen) (by simp [obsOf]) (by simpa [obsOf] using hm)
+    have : (step genCfg s r e).1.closed = false := by simpa [obsOf] using hcl
+    exact absPhase_open _ this h
+  · exfalso
+    simp only [obsOf, hx1] at h200
+    exact hcode h200
+
+/-- non-vacuity of `c12_refused_inert`: on a described session an ANNOUNCE with an unparsable SDP is
+    refused with 400 (test on literals) -/
+example :
+    let env : Env := { lookup := fun _ => some { sdp := 1, mc := none },
+                       sdp := fun n => if n == 1 then { ok := true, medias := [(.video, "t=1".toList)] } else { ok := false, medias := [] },
+                       urlNorm := fun _ => none, permPull := true, permPush := true, udpOk := true }
+    let rq (m : Method) (ct : Bool) (body : Nat) : Req :=
+      { method := m, cseq := [], path := "/a".toList, setupPath := "rtsp://h:554/a".toList, transport := [],
+        ctypeSdp := ct, range := [], body := body }
+    let s := (step genCfg (Sess.init false []) (rq .describe false 0) env).1
+    (respsOf (step genCfg s (rq .announce true 2) env).2).map (·.code) = [400] ∧ s.mode = .play ∧
+      (step genCfg s (rq .announce true 2) env).1.mode = .play := by
+  decide
+
+/-- Playing on the WSP control channel, too, is reached only through DESCRIBE, then SETUP, then PLAY,
+    each answered 200 (there is no recording there). -/
+theorem c12_wsp_order (wsPath : List Char) (ins : List Input) :
+    let s := wfinal genWspGate (WSess.init wsPath) ins
+    let hist := history (wtrace genWspGate genWspSid (WSess.init wsPath) ins)
+    s.closed = false → s.status = .playing →
+      [(Method.describe, 200), (Method.setup, 200), (Method.play, 200)].Sublist hist := by
+  intro s hist hc hs
+  have hsid : genWspSid = true := by decide
+  have h := wtrace_mrun genWspGate c12_source_facts.2.2.1 ins (WSess.init wsPath) (winv_init wsPath)
+  have hn := mrun_need .wsp _ _ _ [] h (by simp [wmstateOf, wabsPhase, WSess.init, need])
+  simp only [List.nil_append] at hn
+  have : (wmstateOf s).phase = .playing := by simp [wmstateOf, wabsPhase, hc, hs]
+  rw [show wfinal genWspGate (WSess.init wsPath) ins = s from rfl, this] at hn
+  show List.Sublist _ (history (wtrace genWspGate genWspSid (WSess.init wsPath) ins))
+  rw [hsid]
+  exact hn
+
 /-- The defect that was fixed on the WSP channel: with the old gate (PAUSE admitted in the initial
     state) a PAUSE before any PLAY is answered 200, which the reference automaton rejects. -/
 theorem c12_wsp_pause_witness :
